@@ -135,6 +135,11 @@ def check_paths(world: dict, sc: dict, out: dict, events: list, initial: dict, a
             L.add(os.path.normpath(os.path.join(cwd, e[2])))
     for rel in L:
         G.setdefault(rel, "fix loop limit reached")
+    # files for which fixing unparsable code IS explicitly enabled (their own nested config / inline
+    # directive) are outside the invariant - every other file stays inside it
+    for rel in [r_ for r_ in G if world["meta"].get(r_, {}).get("feu") and "loop" not in G[r_]]:
+        del G[rel]
+        probes["G_exempt_fix_even_unparsable"] += 1
     probes["files_in_G"] += sum(1 for v in G.values() if "loop" not in v)
     probes["files_in_L"] += len(L)
     muts = [e for e in events if e and e[0] == "disk" and e[3] in MUTATING]
@@ -185,7 +190,7 @@ def run_one(ctx: Any, seed: int, tier: str, replay: Optional[dict] = None) -> di
                  "undef": ["tmpl_undef", "tmpl_undef", "tmpl_undef", "fixable", "clean", "jinja_fixable"],
                  "parse": ["parse_err", "parse_err", "parse_err", "fixable", "clean"],
                  "loop": ["fixable", "fixable", "fixable", "jinja_fixable", "parse_err"]}[flavour]
-        feats = {"kinds": kinds, "runaway": [10, 10, 2, 1] if flavour != "loop" else [1, 1, 2], "min_files": 3, "max_files": 7, "ignore_file": False}
+        feats = {"kinds": kinds, "runaway": [10, 10, 2, 1] if flavour != "loop" else [1, 1, 2], "min_files": 3, "max_files": 7, "ignore_file": False, "feu": 0.25}
         if flavour == "undef":
             feats["templater"] = ["jinja"]
         world = gen_fix_world(rng.fork("world"), feats)
@@ -288,7 +293,9 @@ def run_one(ctx: Any, seed: int, tier: str, replay: Optional[dict] = None) -> di
                     vs.append(("stdin-disk", "a stdin/API fix changed files on disk"))
                 res = out.get("stdout") if sc["type"] == "stdin" else out.get("fixed")
                 probes["%s_exec" % sc["type"]] += 1
-                if (inG or inL) and "exception" not in out:
+                if inG and not inL and world["meta"].get(sc["file"], {}).get("feu"):
+                    probes["G_exempt_fix_even_unparsable"] += 1  # explicitly enabled for this very file
+                elif (inG or inL) and "exception" not in out:
                     probes["%s_input_in_G_or_L" % sc["type"]] += 1
                     if res != text:
                         why = "templating/parse error" if inG else "fix loop limit"
